@@ -715,6 +715,8 @@ def run(ctx):
     r11h(ctx)
     # an indented save writes what the indenter leaves: every mixed-content element must be in its table, or text next to inline children is overwritten (shared with C11)
     r11de(ctx)
+    from .round12 import r03n
+    r03n(ctx)
 
 
 from ..selftest import Seed, unparse_seed  # noqa: E402
